@@ -450,6 +450,41 @@ pub fn main(args: &[String]) -> i32 {
         }
     }
     }
+    if o.num("squeeze", 0u32) == 1 && keys.len() >= 11 {
+        // C19: the device runs full in the background, later writes fail to be allocated, then deletes
+        // make room: the waiting writes must reach the device without any further call
+        let nfill = keys.len() - 3;
+        let mut put = |ki: usize, tag: u8, calls: &mut Vec<CallInfo>, cur_val: &mut HashMap<usize, Vec<u8>>| {
+            let (key, kid) = (keys[ki].clone(), ki + 1);
+            let call_idx = calls.len() as u64;
+            let val = vec![tag; 100 + ki];
+            obs::api("api_call", &key, call_idx, 0, 0);
+            let res = store.insert_with_timestamp(&key, &val, None);
+            calls.push(match res {
+                Ok(_) => {
+                    let r = store.verif_record(&key).expect("record after insert");
+                    cur_val.insert(kid, val.clone());
+                    CallInfo { kid, key: key.clone(), gen: Some((r.timestamp, r.ttl_expiry, val)), deleted: false }
+                }
+                Err(_) => CallInfo { kid, key: key.clone(), gen: None, deleted: false },
+            });
+            obs::api("api_ret", &key, call_idx, 0, 0);
+        };
+        for ki in 0..nfill { put(ki, b'F', &mut calls, &mut cur_val); }
+        std::thread::sleep(std::time::Duration::from_millis(600));
+        crate::util::watchdog::beat("squeeze: late writes");
+        for ki in nfill..keys.len() { put(ki, b'L', &mut calls, &mut cur_val); }
+        std::thread::sleep(std::time::Duration::from_millis(450));
+        for ki in 0..3 {
+            let (key, kid) = (keys[ki].clone(), ki + 1);
+            let call_idx = calls.len() as u64;
+            obs::api("api_call", &key, call_idx, 0, 0);
+            let ok = store.delete(&key).is_ok();
+            if ok { cur_val.remove(&kid); }
+            calls.push(CallInfo { kid, key: key.clone(), gen: None, deleted: ok });
+            obs::api("api_ret", &key, call_idx, 0, 0);
+        }
+    }
     if noflush {
         // C19: no explicit flush; everything acknowledged `settle` ms ago must be durable
         for _ in 0..(settle_ms / 200).max(1) {
@@ -461,7 +496,7 @@ pub fn main(args: &[String]) -> i32 {
         obs::api("settled", &[], id, 0, 0);
     }
     let mut heal: Option<Value> = None;
-    if fault_at >= 0 {
+    if fault_at >= 0 && o.num("noheal", 0u32) == 0 {
         // C09: once the device works again a flush succeeds - or, after an indeterminate
         // failure, once the file is reopened (the poison is process wide: a child reopens)
         HEALED.store(true, std::sync::atomic::Ordering::SeqCst);
